@@ -175,3 +175,40 @@ CLAIMS['C04'] = dict(
     design_ref='DESIGN.md §5 C04')
 for _p in CLAIMS:
     NOT_APPLICABLE.pop(_p, None)
+
+# ---- the deciding method per check (MANIFEST "technique")
+_T0 = ('contract-based deductive verification with a VC generator written for this task (pyvc): the AST of the working tree is '
+       're-parsed on every run and executed symbolically under sidecar contracts (preconditions as assumptions, postconditions as '
+       'named obligations, loops as cut points with fold specifications or quantified invariants, callee contracts as summaries); '
+       'obligations discharged by z3 5.1 (fallback: z3 nlsat tactic, cvc5 1.0.3; thorough tier re-checks every unsat with cvc5); ')
+TECHNIQUE = {
+    'C04': _T0 + 'here on small dense arrays (2 pulses) with symbolic entries for nf_helper and the image-pass mask; the bounded native '
+                 'near-field/far-field comparison is a stand-in, never counted as proved',
+    'C07': _T0 + 'fold specification of compute_rhs, linearity and dBi-invariance lemmas over the contracts, frame condition '
+                 '(matrix fill never reads the sources) over the AST call graph',
+    'C08': _T0 + 'nested fold specification of compute_impedance_matrix_loads, circuit identities for RLC/trap/Laplace loads with symbolic '
+                 'R, L, C, f, Bessel functions uninterpreted, plus a Lean 4 + Mathlib lemma (series impedance at the feed) checked by hash / recompiled when changed',
+    'C09': _T0 + 'contracts on every function between the wire topology and the J/E lines; KCL as a lemma over those contracts',
+    'C10': _T0 + 'the far-field slices (radiation sum on 1x2x2 arrays with numpy semantics executed by numpy on object arrays; dBi/V-per-m tail '
+                 'pointwise) against spec functions written from the property',
+    'C11': _T0 + 'reads clause and taint frame over the AST call graph (no ground constant can reach the currents) and three shape-bounded '
+                 'slices of the real-ground branch (reflection point, medium lookup with lemmas, Fresnel coefficients with the perfect-conductor limit)',
+    'C12': _T0 + 'search-loop rule for the end matching, quantified invariant for the pulse-creation loops, count lemma',
+    'C13': _T0 + 'loop invariants for the segment chains, polynomial identities under cos^2+sin^2=1 by z3-checked linear-combination '
+                 'certificates (rotation matrix, helix); the taper search loops are bounded only',
+    'C14': _T0 + 'frame conditions generated from the AST: name-normalised inventory of every persistent write by class of function, assigns '
+                 'clauses of the compute stages, read sets of the caches, frequency-setter invariant, unordered iteration and clock/entropy sites',
+    'C15': _T0 + 'round-trip obligations read(write(x)) = x over abstract strings: the real writer produces typed tokens, the real reader slice '
+                 'of main() consumes them; complex literals decided with Python\'s own complex() on rendering classes',
+    'C16': _T0 + 'array lengths and element formulas of the sample grids as symbolic arrays; verifier counter-models are replayed on the real code',
+    'C17': _T0 + 'quantified invariants for compute_tags (sorted permutation, block order), contracts of register_source/register_load and of '
+                 'the option readers; both addressing forms related by a lemma',
+    'C18': _T0 + 'token-level obligations on the BASIC input writers against an ASSUMED prompt grammar of the external MININEC-3 program',
+    'C19': _T0 + 'token audit of every report writer over abstract strings; format_float executed on a digit-string abstract domain '
+                 '(integer of digits + layout) for every decade of the stated range, obligations in linear integer/real arithmetic',
+    'C20': _T0 + 'containment obligations (complete silently, or return 23 after exactly one line, no exception escapes) for every option reader '
+                 'of main() over every field layout with callees raising what their contracts allow; the numeric stage is fuzzed natively (bounded)',
+}
+for _p, _t in TECHNIQUE.items():
+    if _p in CLAIMS:
+        CLAIMS[_p]['technique'] = _t
